@@ -50,7 +50,11 @@ pub fn gen_setup(r: &mut Rng, profile: Profile, max_k: u32) -> Setup {
         _ => r.range(301, 1200) as u32,
     }
     .min(max_k);
-    let derived = r.chance(30, 100);
+    // extra-large stream of C07 (release builds only): one big block, so that the U section of the
+    // solver grows past one and two machine words on the dense back-end as well
+    let xl = profile == Profile::C07 && max_k >= 1000;
+    let k_target = if xl { r.range(700, max_k as u64) as u32 } else { k_target };
+    let derived = r.chance(30, 100) && !xl;
     let mut with_defaults_mtu: Option<u16> = None;
     let mut oti: Option<Oti> = None;
     if derived {
@@ -92,6 +96,7 @@ pub fn gen_setup(r: &mut Rng, profile: Profile, max_k: u32) -> Setup {
         Some(o) => o,
         None => {
             let t: u16 = match r.below(1000) {
+                _ if xl => *r.pick(&[1u16, 2, 4, 8]),
                 0..=2 => 65535,
                 3..=30 => 1280,
                 _ => *r.pick(&T_LIST),
@@ -111,6 +116,7 @@ pub fn gen_setup(r: &mut Rng, profile: Profile, max_k: u32) -> Setup {
                 }
             };
             let z: u64 = match r.below(100) {
+                _ if xl => 1,
                 0..=44 => 1,
                 45..=79 => r.range(2, 4),
                 80..=94 => r.range(5, 20),
@@ -120,6 +126,7 @@ pub fn gen_setup(r: &mut Rng, profile: Profile, max_k: u32) -> Setup {
             let z = if k_target > 150 { z.min(2) } else { z };
             let k_target = if z > 20 { k_target.min(6) } else if z > 4 { k_target.min(40) } else { k_target } as u64;
             let z = z.min((700 / k_target.max(1)).max(1));
+            let k_target = if xl { k_target.max(700) } else { k_target };
             let (t, al, n) = if z * k_target * t as u64 > 300_000 && !r.chance(1, 50) {
                 let t = *r.pick(&T_LIST);
                 let al = divisors_al(t, r);
